@@ -15,6 +15,11 @@ func genPersistWrite(r *rand.Rand, o persistOpts, now int64) []Tok {
 	k := S(pick(r, persistKeys))
 	v := func() Tok { return B(pick(r, persistSafeVals)) }
 	typed := o.mode == "aof" || r.Intn(6) == 0
+	if o.mode != "aof" && r.Intn(4) == 0 {
+		// short deadlines, so that keys are past their deadline (but still physically present) when a
+		// checkpoint is written or restored
+		return []Tok{S("SET"), k, v(), S("PXAT"), At(now+pick(r, []int64{300, 800, 1500}), "ms")}
+	}
 	n := r.Intn(14)
 	if !typed && n >= 5 && n <= 10 {
 		n = r.Intn(5)
@@ -56,7 +61,7 @@ func genPersistWorkload(r *rand.Rand, o persistOpts) []persistStep {
 	nrw := 0
 	for i := 0; i < o.length; i++ {
 		t := int64(0)
-		if r.Intn(4) == 0 {
+		if r.Intn(4) == 0 || (o.mode != "aof" && r.Intn(3) == 0) {
 			t = pick(r, []int64{1, 500, 1000, 2500})
 		}
 		now += t
